@@ -243,6 +243,30 @@ func C13(r *ev.Report) {
 		r.Count("pairs_where_limb_order_differs", disagree)
 	})
 
+	// solved members against a thin slice of V_n, both orders
+	wvals := alpha.WithWitnesses(nil, ref.N)
+	thin := alpha.Thin(vals, 12)
+	r.Bound("solved_members", len(wvals))
+
+	r.ParFor(len(wvals), func(_, i int) {
+		a := wvals[i]
+
+		for _, b := range thin {
+			for _, ab := range [][2]alpha.Val{{a, b}, {b, a}} {
+				r.Transitions.Add(2)
+				r.Evals.Add(1)
+
+				if key, detail := c13PairCase(ab[0], ab[1]); key != "" {
+					r.Violation(key, detail, Case{"op": "pair", "a": hx(ab[0].V), "b": hx(ab[1].V)})
+				}
+			}
+		}
+
+		if key, detail := c13UnaryCase(a); key != "" {
+			r.Violation(key, detail, Case{"op": "unary", "a": hx(a.V)})
+		}
+	})
+
 	rich := alpha.Values(ref.N, 2)
 	r.Bound("predicate_values", len(rich))
 	r.States.Add(int64(len(rich)))
